@@ -364,9 +364,15 @@ def is_lmf(source: AnyPath) -> bool:
     return True
 
 
+def _double_quoted(line: bytes) -> bytes:
+    # only literals that are opened and closed with a single quote are
+    # equivalent to double-quoted ones; "...' is not well-formed
+    return re.sub(rb"(?<=[ =])'([^'\"<>]*)'(?=[ ?>])", rb'"\1"', line)
+
+
 def _read_header(fh: BinaryIO) -> str:
-    xmldecl = fh.readline().rstrip().replace(b"'", b'"')
-    doctype = fh.readline().rstrip().replace(b"'", b'"')
+    xmldecl = _double_quoted(fh.readline().rstrip())
+    doctype = _double_quoted(fh.readline().rstrip())
 
     if xmldecl != _XMLDECL:
         raise LMFError('invalid or missing XML declaration')
